@@ -107,7 +107,7 @@ def svc(requests, chunk=20000, timeout=300):
                 f.write(json.dumps({"derive": q["derive"], "item": q["item"]}) + "\n")
 
     def do(lo, hi):
-        lines = "\n".join(json.dumps({"id": i, "derive": requests[i]["derive"], "item": requests[i]["item"], "canon": bool(requests[i].get("canon")), "where": bool(requests[i].get("where")), "group": bool(requests[i].get("group")), **({"foreign": requests[i]["foreign"]} if "foreign" in requests[i] else {}), **({"decorate": requests[i]["decorate"]} if "decorate" in requests[i] else {}), **({"parse": True} if requests[i].get("parse") else {}), **({"respace": requests[i]["respace"]} if "respace" in requests[i] else {})})
+        lines = "\n".join(json.dumps({"id": i, "derive": requests[i]["derive"], "item": requests[i]["item"], "canon": bool(requests[i].get("canon")), "where": bool(requests[i].get("where")), "group": bool(requests[i].get("group")), **({"foreign": requests[i]["foreign"]} if "foreign" in requests[i] else {}), **({"foreign_text": requests[i]["foreign_text"]} if "foreign_text" in requests[i] else {}), **({"decorate": requests[i]["decorate"]} if "decorate" in requests[i] else {}), **({"parse": True} if requests[i].get("parse") else {}), **({"respace": requests[i]["respace"]} if "respace" in requests[i] else {})})
                           for i in range(lo, hi)) + "\n"
         try:
             p = subprocess.run([exe, "svc"], input=lines, stdout=subprocess.PIPE, stderr=subprocess.PIPE,
